@@ -39,8 +39,8 @@ const SPEC: Spec = Spec {
         "a dead owner is a thread that finished (leaking its handles) or, in the crash part, a forked process that exits at a chosen atomic access; recover for an owner is only called after that owner ended",
         "stress and crash parts are not bit-reproducible from the replay file (timing); their replay re-runs the same parameters",
     ],
-    watchdog_quick_s: 900,
-    watchdog_thorough_s: 7200,
+    watchdog_quick_s: 2400,
+    watchdog_thorough_s: 21600,
 };
 
 pub const K: u64 = 0x9E37_79B9_7F4A_7C15;
@@ -644,7 +644,7 @@ fn sched_parts(ctx: &mut Ctx) {
         if !ctx.part_enabled(part) {
             continue;
         }
-        let total = if weak { ctx.scale(250_000u64, 4_000_000) } else { ctx.scale(700_000u64, 10_000_000) };
+        let total = if weak { ctx.scale(250_000u64, 3_000_000) } else { ctx.scale(700_000u64, 8_000_000) };
         let div = std::env::var("C10_DIV").ok().and_then(|s| s.parse::<u64>().ok()).unwrap_or(1).max(1);
         let n = ctx.share(total / div);
         let mut rng = ctx.rng(part);
